@@ -1,3 +1,3 @@
 SPECIFICATION Spec
-CONSTANTS MaxConj = 2 MaxAlt = 2 Sample = 0
+CONSTANTS MaxConj = 2 MaxAlt = 2 Seed = 1 Sample = 0
 INVARIANTS Swap2 Rot3 Idem DefaultWithinValue
